@@ -219,9 +219,48 @@ func uniq(xs []string) []string {
 	return out
 }
 
+// (document, operation name) pairs that a careless cache key confuses: the naive joins of operation name and request text
+// coincide — plain concatenation (the operation name is a prefix of the other request's text: "query", "query Q", "{"), a
+// NUL or ":" separator that the name itself contains, names with digits and ":" that mimic a length prefix.
+var keyCollisionPairs = [][2]ireq{
+	{{Query: `query{a}`}, {Query: `{a}`, Op: "query"}},
+	{{Query: `query Q{a}`}, {Query: `{a}`, Op: "query Q"}},
+	{{Query: `query Q{a}`}, {Query: ` Q{a}`, Op: "query"}},
+	{{Query: `query Q{a}`, Op: "Q"}, {Query: `uery Q{a}`, Op: "Qq"}},
+	{{Query: `{a b}`}, {Query: `a b}`, Op: "{"}},
+	{{Query: `query Q{a} query R{b}`, Op: "Q"}, {Query: `Qquery Q{a} query R{b}`}},
+	{{Query: `query Q{a} query R{b}`, Op: "R"}, {Query: `query Q{a} query R{b}`, Op: "Q"}},
+	{{Query: `{a}`, Op: "x\x00y"}, {Query: "y\x00{a}", Op: "x"}},
+	{{Query: `{a}`, Op: "x:y"}, {Query: `y:{a}`, Op: "x"}},
+	{{Query: `{a}`, Op: "1:Q"}, {Query: `1:Q{a}`}},
+	{{Query: `query Q{a}`, Op: "0:"}, {Query: `0:query Q{a}`}},
+	{{Query: `Q{a}`, Op: "1:"}, {Query: `{a}`, Op: "1:Q"}},
+	{{Query: `query Q{a}`, Op: "Q"}, {Query: `1:Qquery Q{a}`}},
+	{{Query: `query Q{aa}`, Op: "Q"}, {Query: `query Q{aa}`, Op: "1:Q"}},
+	{{Query: `query A{a} query AB{b}`, Op: "A"}, {Query: `query A{a} query AB{b}`, Op: "AB"}},
+	{{Query: `{a}`, Op: "\x00"}, {Query: "\x00{a}"}},
+}
+
+// collisionSequences: both orders, plain and normalising caches, small and default capacity.
+func collisionSequences() []iseq {
+	var out []iseq
+	for _, pr := range keyCollisionPairs {
+		for _, order := range [][2]int{{0, 1}, {1, 0}} {
+			other, probe := pr[order[0]], pr[order[1]]
+			other.Differ = fmt.Sprintf("(document, operation name) = (%q, %q) whose naive key joins coincide with the probe's", other.Query, other.Op)
+			for _, norm := range []bool{false, true} {
+				for _, capa := range []int{2, 0} {
+					out = append(out, iseq{Family: "keyCollision", Normalize: norm, Capacity: capa, Probe: probe, Steps: []ireq{other, probe, other, probe}})
+				}
+			}
+		}
+	}
+	return out
+}
+
 // mkSequences draws probes and their near-miss prefixes.
 func mkSequences(seed uint64, nProbes int) []iseq {
-	var out []iseq
+	out := collisionSequences()
 	modes := []modeT{{}, {Errors: true}, {Errors: true, Thunks: true}, {FailLeaves: true}}
 	for p := 0; p < nProbes; p++ {
 		r := hx.Fork(seed, 700000+p)
